@@ -29,10 +29,20 @@ type decHooks struct {
 	enter map[string]bool
 	// natN, when set, pins the byte count returned by decodeNatural (a key)
 	natN *int64
+	// natVals pins the value returned by the k-th decodeNatural call of the run (keys); nil entries stay symbolic
+	natVals []*sym.Term
+	natSeen map[string]int
+	// opaque lists module functions kept as opaque calls
+	opaque map[string]bool
+	// pinAny0, when set, is the value of the first byte of the input buffer at a
+	// symbolic offset (the palette header byte, which follows two naturals)
+	pinAny0 *sym.Term
+	// pureOpaque lists opaque functions that do not write through their arguments
+	pureOpaque map[string]bool
 }
 
 func (c *Ctx) newDecHooks() *decHooks {
-	h := &decHooks{c: c, pins: map[string]*sym.Term{}, enter: map[string]bool{}}
+	h := &decHooks{c: c, pins: map[string]*sym.Term{}, enter: map[string]bool{}, opaque: map[string]bool{}}
 	if n := c.Named("decode", "buffer"); n != nil {
 		h.bufferT = n
 	}
@@ -47,6 +57,29 @@ func (h *decHooks) Init(o *sym.Object, p sym.Path, t types.Type) *sym.Term {
 		return v
 	}
 	return nil
+}
+
+// Pin: a load of the input buffer at a purely symbolic offset made of operand
+// byte counts (the header byte of a chunk body) can be pinned as a key.
+func (h *decHooks) Pin(fr *sym.Frame, v ssa.Value) *sym.Term {
+	if h.pinAny0 == nil {
+		return nil
+	}
+	ld, ok := v.(*ssa.UnOp)
+	if !ok || ld.Op != token.MUL {
+		return nil
+	}
+	ia, ok := ld.X.(*ssa.IndexAddr)
+	if !ok {
+		return nil
+	}
+	if k, ok := ia.Index.(*ssa.Const); !ok || k.Value == nil || k.Value.ExactString() != "0" {
+		return nil
+	}
+	if h.bufferT == nil || !types.Identical(ia.X.Type(), h.bufferT) {
+		return nil
+	}
+	return h.pinAny0
 }
 
 // pinInputByte pins byte k of the root parameter named param.
@@ -94,6 +127,19 @@ func (h *decHooks) Call(in *sym.Interp, fr *sym.Frame, site ssa.CallInstruction,
 		res := callee.Signature.Results()
 		val := sym.Atom("val@"+id, res.At(0).Type())
 		n := sym.Atom("n@"+id, res.At(1).Type())
+		if name == "decodeNatural" && len(h.natVals) > 0 {
+			if h.natSeen == nil {
+				h.natSeen = map[string]int{}
+			}
+			k, seen := h.natSeen[id]
+			if !seen {
+				k = len(h.natSeen)
+				h.natSeen[id] = k
+			}
+			if k < len(h.natVals) && h.natVals[k] != nil {
+				val = h.natVals[k]
+			}
+		}
 		if h.natN != nil && name == "decodeNatural" {
 			n = sym.Int(*h.natN)
 		}
@@ -102,6 +148,26 @@ func (h *decHooks) Call(in *sym.Interp, fr *sym.Frame, site ssa.CallInstruction,
 			ev.Result = sym.Tuple(val, n)
 		}
 		return true, sym.Tuple(val, n)
+	}
+	if h.opaque[callee.Name()] {
+		var rt types.Type
+		if rs := callee.Signature.Results(); rs.Len() == 1 {
+			rt = rs.At(0).Type()
+		} else if rs.Len() > 1 {
+			rt = rs
+		}
+		ev := in.Emit(fr, "opaquecall", site, callee.Name(), args, fr.Mem())
+		if !h.pureOpaque[callee.Name()] {
+			in.Havoc(fr, site, fr.Mem(), args)
+		}
+		if rt == nil {
+			return true, nil
+		}
+		r := sym.Atom(fmt.Sprintf("res@%s#%d:%s", fr.ID, ordinal(site), callee.Name()), rt)
+		if ev != nil {
+			ev.Result = r
+		}
+		return true, r
 	}
 	return false, nil
 }
@@ -237,5 +303,14 @@ func sortedKeys(m map[string]bool) []string {
 func DebugDecHooks(c *Ctx, in *sym.Interp, key int) {
 	h := c.newDecHooks()
 	h.pinInputByte("src", 0, int64(key))
+	in.Hooks = h
+}
+
+// DebugDecHooksOpaque installs the decoder hooks with opaque functions (for ivgsa dump -key -2).
+func DebugDecHooksOpaque(c *Ctx, in *sym.Interp, opaque []string) {
+	h := c.newDecHooks()
+	for _, o := range opaque {
+		h.opaque[o] = true
+	}
 	in.Hooks = h
 }
